@@ -420,7 +420,7 @@ def main():
                 key = PHASE_KEY
             elif C.in_model(case, strict=False):
                 # a consequence of one of C02's cursor defects?  the model under repair flags tells
-                off = [f for f in C.FLAGS if not cfg.get(f)]
+                off = [f for f in C.FLAGS if not cfg.get(f) and f != "fix_phase_sign"]      # (the PHASE sign is judged above, by convention)
                 for fls in [[f] for f in off] + [[f for f in off if f.startswith("fix_bz")], off]:
                     if not fls: continue
                     fl = fls[0]
